@@ -31,6 +31,21 @@ type tEnv struct {
 	X     int    `json:"x"`
 	Async bool   `json:"async"`
 	Id    string `json:"id"`
+	Gap   int64  `json:"gap"` // AsyncCancel: hold the canceller between the two halves of Cancel for this long (hook)
+}
+
+// gates for the "asyncCancel.mid" hook: ExecutionResult -> how long to hold the canceller
+var cancelGaps sync.Map
+
+func init() {
+	failsafe.VerifHook = func(point string, subject any) {
+		if point != "asyncCancel.mid" {
+			return
+		}
+		if d, ok := cancelGaps.Load(subject); ok && d.(time.Duration) > 0 {
+			time.Sleep(d.(time.Duration))
+		}
+	}
 }
 
 type tScenario struct {
@@ -44,6 +59,7 @@ type tScenario struct {
 	Bhmax     map[string]int `json:"bhmax"`
 	UnitNs    int64          `json:"unit_ns"`
 	Grace     int64          `json:"grace"`
+	Readers   bool           `json:"readers"`
 }
 
 var errCoop = &coopErr{}
@@ -100,6 +116,7 @@ func runTScenario(t *testing.T, raw []byte) (lines []M, problem string) {
 	json.Unmarshal(raw, &cfgAny)
 	delete(cfgAny, "unit_ns")
 	delete(cfgAny, "grace")
+	delete(cfgAny, "readers")
 	func() {
 		defer func() {
 			if r := recover(); r != nil {
@@ -116,9 +133,19 @@ func runTScenario(t *testing.T, raw []byte) (lines []M, problem string) {
 				rec.mu.Lock()
 				calls[x]++
 				k := calls[x]
+				att, exe, ret, hdg := stableCounters(exec)
+				// LastError() and IsCanceled() both depend on the context: read them until two reads agree
+				le, canc := exec.LastError(), exec.IsCanceled()
+				for i := 0; i < 100; i++ {
+					le2, canc2 := exec.LastError(), exec.IsCanceled()
+					if le2 == le && canc2 == canc {
+						break
+					}
+					le, canc = le2, canc2
+				}
 				rec.lines = append(rec.lines, M{"ev": "FnStart", "x": x, "L": len(sc.Stack) + 1, "k": k, "t": rec.vnow(),
-					"att": exec.Attempts(), "exe": exec.Executions(), "ret": exec.Retries(), "hdg": exec.Hedges(),
-					"lr": resName(exec.LastResult()), "le": projectErrT(exec.LastError()), "hedge": exec.IsHedge(), "canceled": exec.IsCanceled()})
+					"att": att, "exe": exe, "ret": ret, "hdg": hdg,
+					"lr": resName(exec.LastResult()), "le": projectErrT(le), "hedge": exec.IsHedge(), "canceled": canc})
 				rec.mu.Unlock()
 				f := sc.FnDefault
 				if x-1 < len(sc.Fns) && k <= len(sc.Fns[x-1]) {
@@ -137,11 +164,17 @@ func runTScenario(t *testing.T, raw []byte) (lines []M, problem string) {
 				} else if d > 0 {
 					time.Sleep(d)
 				}
+				// the observation and the log line are taken in one critical section of the recorder
+				rec.mu.Lock()
 				if early {
-					rec.tline(M{"ev": "FnEnd", "x": x, "k": k, "r": "R0", "e": term{Op: "ECoop", Ch: []term{}}, "canceled": exec.IsCanceled()}, nil)
+					rec.lines = append(rec.lines, M{"ev": "FnEnd", "x": x, "k": k, "r": "R0", "e": term{Op: "ECoop", Ch: []term{}}, "canceled": exec.IsCanceled(), "t": rec.vnow()})
+				} else {
+					rec.lines = append(rec.lines, M{"ev": "FnEnd", "x": x, "k": k, "r": f.R, "e": f.E, "canceled": exec.IsCanceled(), "t": rec.vnow()})
+				}
+				rec.mu.Unlock()
+				if early {
 					return "", errCoop
 				}
-				rec.tline(M{"ev": "FnEnd", "x": x, "k": k, "r": f.R, "e": f.E, "canceled": exec.IsCanceled()}, nil)
 				return mkString(f.R), buildErrX(f.E)
 			}
 			cancels := map[int]context.CancelFunc{}
@@ -170,6 +203,30 @@ func runTScenario(t *testing.T, raw []byte) (lines []M, problem string) {
 							r, err := er.Get()
 							rec.tline(M{"ev": "Return", "x": x, "r": resName(r), "e": projectErrT(err)}, nil)
 						}()
+						if sc.Readers {
+							// reader A polls IsDone every unit, then Gets; reader B waits on Done(), checks IsDone, Gets
+							wg.Add(2)
+							go func() {
+								defer wg.Done()
+								for i := 0; i < 1000; i++ {
+									var v bool
+									rec.tlineF(func() M { v = er.IsDone(); return M{"ev": "IsDone", "x": x, "v": v} }, nil)
+									if v {
+										break
+									}
+									time.Sleep(unit)
+								}
+								rec.tlineF(func() M { r, err := er.Get(); return M{"ev": "GetRet", "x": x, "r": resName(r), "e": projectErrT(err)} }, nil)
+							}()
+							go func() {
+								defer wg.Done()
+								<-er.Done()
+								rec.tline(M{"ev": "DoneClosed", "x": x}, nil)
+								rec.tlineF(func() M { return M{"ev": "IsDone", "x": x, "v": er.IsDone()} }, nil)
+								r, err := er.Result(), er.Error()
+								rec.tline(M{"ev": "GetRet", "x": x, "r": resName(r), "e": projectErrT(err)}, nil)
+							}()
+						}
 					} else {
 						go func() {
 							defer wg.Done()
@@ -178,19 +235,34 @@ func runTScenario(t *testing.T, raw []byte) (lines []M, problem string) {
 						}()
 					}
 				case "CtxCancel":
+					// the canceller is its own goroutine (the controller goes on with the script)
 					rec.tline(M{"ev": "CtxCancel", "x": e.X}, nil)
-					cancels[e.X]()
-					rec.tline(M{"ev": "CancelRet", "x": e.X}, nil)
+					wg.Add(1)
+					go func(x int) {
+						defer wg.Done()
+						cancels[x]()
+						rec.tline(M{"ev": "CancelRet", "x": x}, nil)
+					}(e.X)
 				case "AsyncCancel":
 					rec.tline(M{"ev": "AsyncCancel", "x": e.X}, nil)
-					results[e.X].Cancel()
-					rec.tline(M{"ev": "CancelRet", "x": e.X}, nil)
+					er := results[e.X]
+					if e.Gap > 0 {
+						cancelGaps.Store(any(er), time.Duration(e.Gap)*unit)
+					}
+					wg.Add(1)
+					go func(x int) {
+						defer wg.Done()
+						er.Cancel()
+						cancelGaps.Delete(any(er))
+						rec.tline(M{"ev": "CancelRet", "x": x}, nil)
+					}(e.X)
 				case "BhTake":
+					rec.tline(M{"ev": "BhTakeCall", "id": e.Id}, nil)
 					ok := bs.bulks[e.Id].TryAcquirePermit()
 					rec.tline(M{"ev": "BhTake", "id": e.Id, "ok": ok}, nil)
 				case "BhRelease":
+					rec.tline(M{"ev": "BhReleaseCall", "id": e.Id}, nil)
 					bs.bulks[e.Id].ReleasePermit()
-					rec.tline(M{"ev": "BhRelease", "id": e.Id}, nil)
 				}
 			}
 			wg.Wait()
@@ -212,7 +284,22 @@ func runTScenario(t *testing.T, raw []byte) (lines []M, problem string) {
 				}
 				used[id] = max - free
 			}
-			q := M{"ev": "Quiesce", "live": live, "used": used}
+			cbs := M{}
+			for id, cb := range bs.breakers {
+				st := stateName(cb.State())
+				permits := -1
+				if st == "halfopen" {
+					permits = 0
+					for cb.TryAcquirePermit() {
+						permits++
+						if permits > 100 {
+							break
+						}
+					}
+				}
+				cbs[id] = M{"state": st, "permits": permits}
+			}
+			q := M{"ev": "Quiesce", "live": live, "used": used, "cb": cbs}
 			if live > 0 {
 				q["stacks"] = stacks
 			}
